@@ -143,6 +143,11 @@ def run(key):
     else:
         data = y
     b = 0.0 if blur in ('onehot', 'onehot_int') else 0.4
+    sizes_ = class_sizes(K, D, sk)
+    if b and any((1 - b) * sizes_[k] <= b / max(K - 1, 1) * sizes_[j] for k in range(K) for j in range(K) if j != k):
+        # the quantifier asks for a blur "that keeps the true class the largest": with these class sizes the mass a
+        # class receives from another class exceeds the mass of its own observations
+        return trivial('the blurred start does not keep the true class the largest contributor of every class')
     init = A.partition_affiliation(labels, K, blur=b, lead=lead)
     if blur == 'onehot_int':
         init = init.astype(np.int64)        # the true partition as an integer 0/1 array
